@@ -55,6 +55,10 @@ struct World {
     hashes: RefCell<HashMap<Name, Vec<u8>>>,
     salt: Vec<u8>,
     iterations: u16,
+    /// query types enumerated for this world
+    qtypes: Vec<u16>,
+    /// subsets larger than this are not enumerated (None: all subsets of up to 7 records)
+    max_subset: Option<u32>,
 }
 
 fn params(s: &Signing) -> (Vec<u8>, u16, bool) {
@@ -88,6 +92,8 @@ fn build_world(spec: &ZoneSpec, signing: &Signing) -> Result<World, String> {
         hashes: RefCell::new(HashMap::new()),
         salt,
         iterations,
+        qtypes: QTYPES.to_vec(),
+        max_subset: None,
     })
 }
 
@@ -135,11 +141,12 @@ impl World {
     /// The subsets to enumerate: all non-empty ones up to 7 records, else all of size <= 3.
     fn masks(&self) -> Vec<u32> {
         let n = self.recs.len();
-        if n <= 7 {
-            (1u32..(1 << n)).collect()
-        } else {
-            (1u32..(1 << n)).filter(|m| m.count_ones() <= 3).collect()
-        }
+        let cap = match self.max_subset {
+            Some(c) => c,
+            None if n <= 7 => 32,
+            None => 3,
+        };
+        (1u32..(1 << n)).filter(|m| m.count_ones() <= cap).collect()
     }
 }
 
@@ -390,7 +397,9 @@ fn run_claim(
             let secure = verdict == Proof::Secure;
             l.outcome(&format!("verdict:{}:{}:{}", claim.tag(), format!("{verdict:?}").to_lowercase(), if tr.is_ok() { "true-claim" } else { "false-claim" }));
             if tr.is_err() || (proves != Proof3::No && mask.count_ones() >= 2) {
-                l.nontrivial(fnv_str(&format!("{case_id}|{soa:?}|{mask}")));
+                // counted per (world, query, claim, soa), not per subset (keeps the exact count far
+                // below vcore's 40 M cap, so it is the same number on every run)
+                l.nontrivial(fnv_str(&format!("{case_id}|{soa:?}")));
             }
             if proves == Proof3::Yes && !secure && soa.is_some() {
                 l.outcome(&format!("obs:valid-proof-not-accepted:{}", claim.tag()));
@@ -537,7 +546,7 @@ fn completeness(world: &World, rt: &tokio::runtime::Runtime, l: &mut Local, only
         if !name.at_or_below(&zone.origin) {
             continue;
         }
-        for t in QTYPES {
+        for &t in &world.qtypes {
             if let Some((oq, ot)) = only {
                 if oq != qn || ot != t {
                     continue;
@@ -778,7 +787,7 @@ fn run_world(world: &World, rt: &tokio::runtime::Runtime, l: &mut Local, cnt: &C
         return;
     }
     let masks = world.masks();
-    if world.recs.len() > 7 {
+    if world.recs.len() > 7 || world.max_subset.is_some() {
         l.outcome("subsets-capped-at-size-3");
     }
     // do the hash order and the canonical name order differ for the names of this zone?
@@ -792,7 +801,7 @@ fn run_world(world: &World, rt: &tokio::runtime::Runtime, l: &mut Local, cnt: &C
     }
     for qn in &world.qnames {
         let name = Name::parse(qn);
-        for t in QTYPES {
+        for &t in &world.qtypes {
             for claim in world.claims(&name, t) {
                 run_claim(world, qn, t, &claim, None, &masks, rt, l, cnt);
             }
@@ -870,13 +879,13 @@ fn main() {
     }
 
     ctx.set_rule(
-        "every zone of the universe (apex + <=K owners of U(d), labels {a,b,*}; kinds A, A+TXT, CNAME->a.z., NS, NS+glue, NS+DS [quick, d=2,K<=2]; thorough: + TXT, CNAME->a.a.z. for d=2,K<=2 \
-         and d=2,K=3, d=3,K<=2 over the 6 kinds) signed by the real nsec3_zone: quick (0,-) without opt-out and, for zones with an insecure delegation, (1,ab) with opt-out; \
+        "every zone of the universe (apex + <=K owners of U(d), labels {a,b,*}; kinds A, A+TXT, CNAME->a.z., NS, NS+glue, NS+DS [quick, d=2,K<=2]; thorough: + TXT, CNAME->a.a.z. for d=2,K<=2, \
+         and the larger zones d=2,K=3 over {A,CNAME,NS} and d=3,K<=2 over {A,CNAME,NS,NS+DS} with qtypes {A,DS} and subsets of size <=3) signed by the real nsec3_zone: quick (0,-) without opt-out and, for zones with an insecure delegation, (1,ab) with opt-out; \
          thorough both parameter sets with and without opt-out; x every qname of {apex, U(3), x.o., names below cuts} x qtype {A,TXT,DS,NS,CNAME} x claim {NXDOMAIN, NODATA, expansion of each \
          published wildcard RRset} x soa {apex, absent} x EVERY non-empty subset of the zone's NSEC3 records (>7 records: subsets of size <=3) -> verify_nsec3; \
          oracle: Secure => claim true in the zone (vref::denial::truth) and the subset is the RFC 5155 section 8 proof with opt-out only for DS (nsec3_proves). \
          Plus parameter mixtures / wrong-zone owners (never Secure), iterations 0..3 x limits {(1,2),(0,0),(2,2)}, completeness of every negative/wildcard DO=1 \
-         server answer through the real DnssecDnsHandle. Non-trivial = distinct cases with a false claim, or an accepted proof of >= 2 records, plus each completeness case.",
+         server answer through the real DnssecDnsHandle. Non-trivial = distinct (world, query, claim, soa) with a false claim or with a valid proof of >= 2 records among the enumerated subsets, plus each completeness case.",
     );
     ctx.assume("vref::zone + vref::denial (self-tested on every run against RFC 4592, RFC 4034 6.1, RFC 4035 app. A/B, RFC 5155 app. A hash vectors and app. B)");
     ctx.assume("the attacker only has genuine signed records of the zone (forged signatures are C06's business); SHA-1 and Ed25519 via ring; no hash collisions among the <= 60 names involved");
@@ -884,15 +893,21 @@ fn main() {
 
     let kinds8 = [Kind::A, Kind::Txt, Kind::ATxt, Kind::CnameA, Kind::CnameAA, Kind::Ns, Kind::NsGlue, Kind::NsDs];
     let kinds6 = [Kind::A, Kind::ATxt, Kind::CnameA, Kind::Ns, Kind::NsGlue, Kind::NsDs];
-    // quick: 6 kinds for d=2,K<=2 (about 40 s of CPU-bound work on 16 idle cores); thorough: all 8 kinds
+    let kinds4 = [Kind::A, Kind::CnameA, Kind::Ns, Kind::NsDs];
+    let kinds3 = [Kind::A, Kind::CnameA, Kind::Ns];
+    // (family id, zone): family 0 = full treatment (all 5 qtypes, all subsets); family 1 = the larger
+    // zones of the thorough tier (qtypes {A, DS}, subsets of size <= 3: the decision procedure uses at
+    // most three records - closest encloser, next closer, wildcard - so every minimal accepted set has <= 3)
     let mut specs: Vec<ZoneSpec> = vzone::family("z.", &vzone::universe(2), 2, if thorough { &kinds8[..] } else { &kinds6[..] });
+    let full = specs.len();
     if thorough {
-        specs.extend(vzone::family("z.", &vzone::universe(2), 3, &kinds6).into_iter().filter(|s| s.owners.len() == 3));
-        specs.extend(vzone::family("z.", &vzone::universe(3), 2, &kinds6).into_iter().filter(|s| s.owners.iter().any(|(o, _)| o.matches('.').count() == 4)));
+        specs.extend(vzone::family("z.", &vzone::universe(2), 3, &kinds3).into_iter().filter(|s| s.owners.len() == 3));
+        specs.extend(vzone::family("z.", &vzone::universe(3), 2, &kinds4).into_iter().filter(|s| s.owners.iter().any(|(o, _)| o.matches('.').count() == 4)));
     }
     let mut jobs: Vec<(usize, Signing)> = vec![];
     for (i, s) in specs.iter().enumerate() {
-        for sg in signings_for(s, thorough) {
+        // the larger zones: one parameter set (plus opt-out where there is an insecure delegation)
+        for sg in signings_for(s, thorough && i < full) {
             jobs.push((i, sg));
         }
     }
@@ -909,7 +924,13 @@ fn main() {
         |i, l, rt| {
             let (si, sg) = &jobs[i as usize];
             match build_world(&specs[*si], sg) {
-                Ok(w) => run_world(&w, rt, l, &cnt, i % stride == 0 || i == n - 1),
+                Ok(mut w) => {
+                    if *si >= full {
+                        w.qtypes = vec![rz::T_A, rz::T_DS];
+                        w.max_subset = Some(3);
+                    }
+                    run_world(&w, rt, l, &cnt, i % stride == 0 || i == n - 1)
+                }
                 Err(e) => l.violation("zone-build-failed", &e, || json!({"zone": specs[*si].to_json(), "signing": sg.tag()})),
             }
         },
